@@ -815,6 +815,12 @@ def run_C12(res, tier, seed, t_end, bad):
             return
     constructor_race(res, tier, seed, t_end)
     if not res.findings:
+        # replies are converted for the caller AFTER the lock is released: a reply that is (or contains) a stored container would be a
+        # read outside the critical section - checked deterministically by the aliasing check of every correspondence session
+        Cp.run_campaign(res, 'C12', Cp.plan_single(['list', 'set', 'hash', 'zset', 'str', 'key', 'sort'], 45, mutate=0.02), budget(tier, 12, 200), seed + 7, None, (),
+                        deadline=t_end)
+        Mx.run_cases(res, 'C12', [c for c in Mx.lists_cases() if any(f[0] == b'lrange' for f in c if isinstance(f, list))], tier, seed, t_end, 150, (), None, label='reply-aliasing')
+    if not res.findings:
         # commands that wait (BLPOP/BRPOPLPUSH) take effect in their LAST critical section: the scheduler harness drives the real
         # _blocking code through every order of critical sections and compares with the sequential model
         import blocking as Bl
